@@ -72,6 +72,7 @@ type Contract struct {
 	JetOperands  []string
 	JetValueOnly bool
 	IsJet        bool
+	Renamed      map[string]string // old -> new names of locals/parameters (rename.go)
 }
 
 type Lemma struct {
